@@ -17,7 +17,10 @@ Record qcase := QC {
   qc_complete : bool;                      (* the run was carried to the end: expiry handled, callbacks settled *)
   qc_subj : N;                             (* the subject it subscribed to and published (interned per service object) *)
   qc_prev : list N;                        (* subjects of the query events created earlier on the same service object, all Serve runs *)
-  qc_stale : list (list pubmsg)            (* per request sent to its subject in a LATER Serve run: what was published on the reply subject *)
+  qc_stale : list (list pubmsg);           (* per request sent to its subject in a LATER Serve run: what was published on the reply subject *)
+  qc_dur_us : N;                           (* the configured query event duration, microseconds *)
+  qc_life_us : option N;                   (* microseconds from the subscription to the start of the expiry callback; None = not expired *)
+  qc_within : list N                       (* requests accepted into the channel less than the duration after the subscription *)
 }.
 
 (* ---- decidable equalities ---- *)
@@ -107,7 +110,9 @@ Definition required_error (p : payload) (o : list pubmsg) : bool :=
           9 the subject is not fresh: an earlier query event of the same service object (any Serve run) had it
          10 a request sent, after a restart, to the subject of a query event of the previous run was answered
          11 the callback was invoked with, or later saw, a query that is not the one its request carried
-            (recorded as invocation id 999999) *)
+            (recorded as invocation id 999999)
+         12 the query event was expired before the configured duration had elapsed
+         13 a request accepted into the channel within the configured duration never got its callback *)
 Definition viol_case (c : qcase) : list N :=
   let tr := qc_trace c in
   let calls := qc_calls c in
@@ -130,7 +135,9 @@ Definition viol_case (c : qcase) : list N :=
    then [] else [8%N]) ++
   (if subok && memN (qc_subj c) (qc_prev c) then [9%N] else []) ++
   (if forallb (fun o => Nat.eqb (length o) 0) (qc_stale c) then [] else [10%N]) ++
-  (if memN 999999 ids then [11%N] else []).
+  (if memN 999999 ids then [11%N] else []) ++
+  (match qc_life_us c with Some t => if N.ltb t (qc_dur_us c) then [12%N] else [] | None => [] end) ++
+  (if ok_run && subok && negb (forallb (fun i => memN i ids) (qc_within c)) then [13%N] else []).
 
 Fixpoint run_idx {A} (f : A -> list N) (i : N) (cs : list A) : list (N * N) :=
   match cs with
